@@ -52,7 +52,8 @@ def expected(method, S, Ssm, f, d, cfg):
         tot = math.fsum(b.ravel().tolist())
         ws = math.fsum(b[mask].ravel().tolist())
         frac = ws / tot if tot > 0 else float("nan")
-        if not math.isnan(frac) and abs(frac - wscut) < 1e-9:
+        if not math.isnan(frac) and abs(frac - wscut) < 1e-9 and not (ws == 0.0 and wscut == 0.0):
+            # "fraction exceeds the cutoff": equality is don't-care unless it is exact (no wind-sea energy at all, cutoff 0: not wind sea)
             out["dontcare"] = True
         if frac > wscut:
             p0 = p0 + b
